@@ -506,6 +506,8 @@ def flatten_fold(repo, run, rule):
                 probs.append((merges[0], 'a single stage is merged'))
             continue
         if not stores:
+            if not merges and any('len(self.stages)' in t for t, _ in p.facts):
+                continue        # a path that tested the number of stages and merged nothing: the single-stage case, however the test is spelled
             probs.append((tr.final_event(p), 'the folded result does not replace self.stages'))
             continue
         st = stores[-1]
